@@ -1,9 +1,11 @@
 #!/bin/bash
 # Runs the repository's own suite on /repo (or $1) and compares with the pinned baseline: 164 passed, and the only
-# failures are the 3 always-fail cookie-handling tests.
+# failures are the 3 always-fail cookie-handling tests.  A few upstream tests use real timers and flake when the machine is
+# loaded: a non-baseline result is retried (up to 3 runs) before it is believed.
 repo=${1:-/repo}
-out=$(cd "$repo" && PYTHONDONTWRITEBYTECODE=1 /venv/bin/python -m pytest -q -p no:cacheprovider 2>&1)
-echo "$out" | tail -1
-bad=$(echo "$out" | grep '^FAILED' | grep -v 'DBusCookieCookieHandlingTester::test_\(del_cookie_last\|del_cookie_with_remaining\|make_cookies\)')
-if [ -n "$bad" ] || ! echo "$out" | tail -1 | grep -q '164 passed'; then echo "BASELINE BROKEN"; echo "$bad"; exit 1; fi
-echo "baseline ok"
+for attempt in 1 2 3; do
+  out=$(cd "$repo" && PYTHONDONTWRITEBYTECODE=1 /venv/bin/python -m pytest -q -p no:cacheprovider 2>&1)
+  bad=$(echo "$out" | grep '^FAILED' | grep -v 'DBusCookieCookieHandlingTester::test_\(del_cookie_last\|del_cookie_with_remaining\|make_cookies\)')
+  if [ -z "$bad" ] && echo "$out" | tail -1 | grep -q '164 passed'; then echo "$out" | tail -1; echo "baseline ok"; exit 0; fi
+done
+echo "$out" | tail -1; echo "BASELINE BROKEN"; echo "$bad"; exit 1
